@@ -199,6 +199,8 @@ def run(ctx):
     # the load-back clause: a JSON string is a str-tagged scalar and must be read back as a string and nothing else - built-in
     # scalar types are accepted on their exact tag only
     S.r01_5_scalar(ctx)
+    from . import round3 as R3
+    R3.r07_5_quoted_scalars_read_back(ctx)
     ctx.extra['transducer_cells'] = len(T)
     ctx.extra['sample_cells'] = {'%s/%s/%s' % k: [list(a) for a in v['actions']] for k, v in list(sorted(
         T.items(), key=lambda x: str(x[0])))[:6]}
